@@ -14,6 +14,28 @@ Theorem find_is_search w sp lits :
 Proof. exact (ImportMain.find_is_search w sp lits). Qed.
 Print Assumptions find_is_search.
 
+(* the whole built-in on literal words (not the built-in marker 5): nothing is evaluated, the tree is searched, the file found goes to the same loader as a path string *)
+Theorem import_by_literals rec sp argv ip h w h1 l0 lits p id nm bytes :
+  runG rec (option (list Z)) ip h w (peek_lits argv) = DoneG h1 w (inl (Some (l0 :: lits))) 0 -> argv <> [] -> l0 <> 5%Z ->
+  search (l0 :: lits) (tree_of_disk (w_disk w)) = Found p id -> nth_error (w_disk w) (N.to_nat id) = Some (nm, bytes) ->
+  runG rec value ip h w (bi_import sp argv) = runG rec value ip h1 w (load_from_path sp (46 :: 47 :: nm)%N).
+Proof. exact (ImportMain.import_by_literals rec sp argv ip h w h1 l0 lits p id nm bytes). Qed.
+Print Assumptions import_by_literals.
+
+Theorem import_by_literals_not_found rec sp argv ip h w h1 l0 lits :
+  runG rec (option (list Z)) ip h w (peek_lits argv) = DoneG h1 w (inl (Some (l0 :: lits))) 0 -> argv <> [] -> l0 <> 5%Z ->
+  search (l0 :: lits) (tree_of_disk (w_disk w)) = NotFound ->
+  runG rec value ip h w (bi_import sp argv) = DoneG h1 w (inr (mkerr c_notfound sp)) 0.
+Proof. exact (ImportMain.import_by_literals_not_found rec sp argv ip h w h1 l0 lits). Qed.
+Print Assumptions import_by_literals_not_found.
+
+Theorem import_by_literals_ambiguous rec sp argv ip h w h1 l0 lits :
+  runG rec (option (list Z)) ip h w (peek_lits argv) = DoneG h1 w (inl (Some (l0 :: lits))) 0 -> argv <> [] -> l0 <> 5%Z ->
+  search (l0 :: lits) (tree_of_disk (w_disk w)) = Ambiguous ->
+  runG rec value ip h w (bi_import sp argv) = DoneG h1 w (inr (mkerr c_import sp)) 0.
+Proof. exact (ImportMain.import_by_literals_ambiguous rec sp argv ip h w h1 l0 lits). Qed.
+Print Assumptions import_by_literals_ambiguous.
+
 (* first import of a file holding one expression: ONE new delayed expression is registered under the FILE and handed back unevaluated; input, output, files and handles unchanged *)
 Theorem load_fresh (rec : list positive -> heap -> world -> task -> out) sp path ip h w id bytes text a :
   index_of (w_disk w) (strip_dot path) 0 = Some (id, bytes) -> mod_get (w_mods w) id = None ->
